@@ -427,7 +427,7 @@ def angles_to_x(points, latitude=False):
         The corresponding Cartesian vectors.
     """
     npoints, ncol = points.shape
-    x = np.zeros((npoints, 3), dtype=points.dtype)
+    x = np.zeros((npoints, 3), dtype=(np.float64 if points.dtype.kind in 'iub' else points.dtype))
     phi = np.radians(points[:, 0])
     if latitude:
         theta = np.radians(90.0 - points[:, 1])
@@ -801,7 +801,7 @@ def x_to_angles(points, latitude=False):
     theta = np.degrees(np.arccos(points[:, 2]/r))
     if latitude:
         theta = 90.0 - theta
-    x = np.zeros((npoints, 2), dtype=points.dtype)
+    x = np.zeros((npoints, 2), dtype=(np.float64 if points.dtype.kind in 'iub' else points.dtype))
     x[:, 0] = phi
     x[:, 1] = theta
     return x
